@@ -53,3 +53,29 @@ Theorem C07_refuted_pinned_compressed :
   hget (st_heap s2) (stream_of r1) <> hget (st_heap s1) (stream_of r1).
 Proof. exact pinned_refuted_compressed. Qed.
 Print Assumptions C07_refuted_pinned_compressed.
+
+(* ---- option objects are per message (model/OptCells.v: MessageOptions is reached through a pointer; the
+   constructors and Chunk() allocate and write such objects).  Whatever is done to one message -- Chunk(), a
+   caller-supplied id, an edit of another option field, the construction of further messages -- the options of
+   every OTHER message stay what they were, over whole histories; the variant that hands every message of one
+   constructor the same package-level object is refuted ---- *)
+From FF Require Import model.OptCells.
+From FF Require proofs.OptCells_Proofs.
+
+Theorem C07_options_frame : forall (ops : list oop) (s : ostate) (m' : nat),
+  OptCells_Proofs.OInv s -> (m' < length (os_msgs s))%nat ->
+  (forall o, In o ops -> match o with ONew _ => True | OChunk m | OSetChunk m _ | OClearSize m => m <> m' end) ->
+  oview (fold_left (ostep false) ops s) m' = oview s m'.
+Proof. exact OptCells_Proofs.opt_frame_history. Qed.
+Print Assumptions C07_options_frame.
+
+Theorem C07_options_reachable : forall ops : list oop, OptCells_Proofs.OInv (orun false ops).
+Proof. exact OptCells_Proofs.OInv_run. Qed.
+Print Assumptions C07_options_reachable.
+
+Theorem C07_options_shared_refuted :
+  let ops := [ONew KGzip; ONew KGzip; OChunk 0] in
+  option_map oc_chunk (oview (orun true ops) 1) = Some (IdGen 0)
+  /\ option_map oc_chunk (oview (orun false ops) 1) = Some IdNone.
+Proof. exact OptCells_Proofs.opt_shared_refuted. Qed.
+Print Assumptions C07_options_shared_refuted.
